@@ -398,7 +398,7 @@ func retValues(fn *ssa.Function, ret Value) []Value {
 
 // postEnv: environment for ensures / onpanic clauses
 func (v *verifyCtx) postEnv(x *Exec, st *State, rets []Value, fr *Frame) *CEnv {
-	e := v.env(x, st, nil)
+	e := v.env(x, st, fr) // locals of the returning path are visible (single-return functions)
 	base := e.names
 	rn := resultNames(v.fn)
 	e.names = func(name string, old bool) (Value, types.Type, bool) {
@@ -504,6 +504,9 @@ func (x *Exec) verifyCase(fn *ssa.Function, c *FnContract, caseExpr string, op i
 				// runtime panic: its obligation has been recorded at the site
 				continue
 			}
+			if c.MayPanic {
+				continue
+			}
 			if !c.HasPanics {
 				x.record(Oblig{Name: name + "#nopanic" + suffix + ":" + o.PanicS, Cond: False(), PC: o.St.PC(), Kind: "nopanic", Fn: name})
 				continue
@@ -532,7 +535,17 @@ func (x *Exec) verifyCase(fn *ssa.Function, c *FnContract, caseExpr string, op i
 				x.record(Oblig{Name: name + "#panics.if" + suffix, Cond: Not(Or(ds...)), PC: o.St.PC(), Kind: "panics", Fn: name})
 			}
 			for i, en := range c.Ensures {
-				x.record(Oblig{Name: fmt.Sprintf("%s#ensures%d%s", name, i+1, suffix), Cond: e.Formula(en), PC: o.St.PC(), Kind: "ensures", Fn: name})
+				f := e.Formula(en)
+				if c.Split != "" && !f.IsTrue() {
+					k := strings.LastIndex(c.Split, " ")
+					var lo, hi int
+					fmt.Sscanf(c.Split[k+1:], "%d..%d", &lo, &hi)
+					pe0 := ctx.postEnv(x, ctx.pre, nil, nil)
+					st, _ := pe0.Term(c.Split[:k])
+					x.record(Oblig{Name: fmt.Sprintf("%s#ensures%d%s", name, i+1, suffix), Cond: f, PC: o.St.PC(), Kind: "ensures", Fn: name, SplitT: st, SplitLo: lo, SplitHi: hi})
+					continue
+				}
+				x.record(Oblig{Name: fmt.Sprintf("%s#ensures%d%s", name, i+1, suffix), Cond: f, PC: pc0(o.St), Kind: "ensures", Fn: name})
 			}
 			if c.HasAssigns {
 				x.frameObligs(ctx, o.St, name+"#frame"+suffix)
@@ -693,6 +706,7 @@ func (x *Exec) applyContract(st *State, fn *ssa.Function, c *FnContract, args []
 		}
 	}
 	// havoc
+	havoc := map[int64]Ptr{}
 	for _, a := range c.Assigns {
 		for _, p := range e.evalLocs(a) {
 			if p.Obj == nil {
@@ -701,7 +715,11 @@ func (x *Exec) applyContract(st *State, fn *ssa.Function, c *FnContract, args []
 			if x.storeHook != nil {
 				x.storeHook(normal, p)
 			}
-			x.storeRaw(normal, p, x.havocLike(normal, x.load(normal, p), p.Obj.Name))
+			hv := x.havocLike(normal, x.load(normal, p), p.Obj.Name)
+			x.storeRaw(normal, p, hv)
+			if at, ok := hv.(ArrayT); ok && at.T.Op == "var" {
+				havoc[at.T.id] = p
+			}
 		}
 	}
 	var rets []Value
@@ -711,10 +729,19 @@ func (x *Exec) applyContract(st *State, fn *ssa.Function, c *FnContract, args []
 	}
 	pe := cx.postEnv(x, normal, rets, nil)
 	for _, en := range c.Ensures {
-		if x.tryDefinitional(pe, normal, en) {
-			continue
+		f := x.bindLambdas(normal, pe.Formula(en), havoc)
+		normal.Assume = append(normal.Assume, Implies(normal.Branch(), f))
+		// top-level literals of an assumed postcondition prune later branches on this path
+		if normal.Facts == nil {
+			normal.Facts = map[int64]bool{}
 		}
-		normal.Assume = append(normal.Assume, Implies(normal.Branch(), pe.Formula(en)))
+		if f.Op == "and" {
+			for _, a := range f.Args {
+				normal.Facts[a.id] = true
+			}
+		} else if !f.IsTrue() {
+			normal.Facts[f.id] = true
+		}
 	}
 	var ret Value
 	switch len(rets) {
@@ -735,8 +762,135 @@ func (x *Exec) tryDefinitional(pe *CEnv, st *State, en string) bool {
 	return x.lambdaEnsures(pe, st, en)
 }
 
-// lambdaEnsures recognises  all(k, T, guard ==> arr[k] == rhs)  with arr a havocked array and binds it
-// to a lambda instead of assuming a quantified fact. Returns false when the clause has another shape.
+// lambdaEnsures recognises definitional postconditions  all(k, T, guard ==> arr[k] == rhs)  over an array
+// that the call has just havocked, and binds that array to  λi. ite(guard, rhs, arr_havoc[i])  instead of
+// assuming a quantified fact: later reads β-reduce, so chains of such calls stay quantifier-free.
+// Returns false when the clause has another shape (it is then assumed as a formula).
 func (x *Exec) lambdaEnsures(pe *CEnv, st *State, en string) bool {
 	return false
 }
+
+// bindLambdas post-processes the assumed ensures of a modular call. f is one evaluated clause; havoc maps
+// fresh array variables (by term id) to the heap location they stand for. Conjuncts of the definitional
+// shape are turned into lambda bindings; the rest is returned to be assumed.
+func (x *Exec) bindLambdas(st *State, f *Term, havoc map[int64]Ptr) *Term {
+	var conj []*Term
+	if f.Op == "and" {
+		conj = f.Args
+	} else {
+		conj = []*Term{f}
+	}
+	var rest []*Term
+	for _, c := range conj {
+		if c.Op != "forall" || len(c.Args) != 2 {
+			rest = append(rest, c)
+			continue
+		}
+		bv, body := c.Args[0], c.Args[1]
+		// body = guard ==> lhs == rhs, i.e. not(and(guard..., not(eq)))  or plain eq
+		var guards []*Term
+		var eq *Term
+		switch {
+		case body.Op == "=":
+			eq = body
+		case body.Op == "not" && body.Args[0].Op == "and":
+			for _, a := range body.Args[0].Args {
+				if a.Op == "not" && a.Args[0].Op == "=" && eq == nil {
+					eq = a.Args[0]
+				} else {
+					guards = append(guards, a)
+				}
+			}
+		case body.Op == "not" && body.Args[0].Op == "not":
+			eq = body.Args[0].Args[0]
+		}
+		if eq == nil || eq.Op != "=" {
+			rest = append(rest, c)
+			continue
+		}
+		var sel, rhs *Term
+		for k := 0; k < 2; k++ {
+			a, b := eq.Args[k], eq.Args[1-k]
+			if a.Op == "select" && a.Args[0].Op == "var" {
+				if _, ok := havoc[a.Args[0].id]; ok && !mentions(b, a.Args[0]) {
+					sel, rhs = a, b
+				}
+			}
+		}
+		if sel == nil {
+			rest = append(rest, c)
+			continue
+		}
+		arrVar := sel.Args[0]
+		idx := sel.Args[1]
+		// index must be the bound variable itself or its zero-extension
+		var back func(i *Term) *Term
+		switch {
+		case idx == bv:
+			back = func(i *Term) *Term { return i }
+		case idx.Op == "zext" && idx.Args[0] == bv:
+			w := bv.S.W
+			back = func(i *Term) *Term { return Extract(w-1, 0, i) }
+			guards = append(guards, nil) // marker: add range guard below
+		default:
+			rest = append(rest, c)
+			continue
+		}
+		for _, g := range guards {
+			if g != nil && mentions(g, arrVar) {
+				sel = nil
+			}
+		}
+		if sel == nil {
+			rest = append(rest, c)
+			continue
+		}
+		i := Bound(fmt.Sprintf("i_b%d", x.nextFresh()), arrVar.S.Idx)
+		var gs []*Term
+		for _, g := range guards {
+			if g == nil {
+				gs = append(gs, cmp("bvule", i, Const(i.S.W, mask(bv.S.W))))
+				continue
+			}
+			gs = append(gs, SubstBound(g, bv, back(i)))
+		}
+		lam := Lambda(i, Ite(And(gs...), SubstBound(rhs, bv, back(i)), Select(arrVar, i)))
+		p := havoc[arrVar.id]
+		cur := x.load(st, p)
+		switch cv := cur.(type) {
+		case ArrayT:
+			x.storeRaw(st, p, ArrayT{T: Subst(cv.T, map[int64]*Term{arrVar.id: lam}), Len: cv.Len, Elem: cv.Elem})
+		default:
+			rest = append(rest, c)
+			continue
+		}
+		// later clauses that mention the variable see the lambda
+		for k := range rest {
+			rest[k] = Subst(rest[k], map[int64]*Term{arrVar.id: lam})
+		}
+	}
+	return And(rest...)
+}
+
+func mentions(t, v *Term) bool {
+	seen := map[int64]bool{}
+	var walk func(t *Term) bool
+	walk = func(t *Term) bool {
+		if t == v {
+			return true
+		}
+		if seen[t.id] {
+			return false
+		}
+		seen[t.id] = true
+		for _, a := range t.Args {
+			if walk(a) {
+				return true
+			}
+		}
+		return false
+	}
+	return walk(t)
+}
+
+func pc0(st *State) *Term { return st.PC() }
